@@ -12,16 +12,19 @@ RepILB     == {s \in RepIL : Len(s) <= MaxBits}
 RepOtherV  == UNION {{Fill(n, 1), [i \in 1..n |-> i % 2], [i \in 1..n |-> IF i = n THEN 1 ELSE 0]} : n \in {0, 3, 8, 9}}
 RepLimbs   == {0, 255, 165, 129}
 AllClasses == {"algo", "pair", "move", "cap", "fill", "ctor", "size", "view", "push", "bit", "shift", "binary", "at", "read", "write"}
-UnaryFew   == {"algofew", "ctor", "size", "view", "push", "bit", "shift", "at", "read", "writefew", "cap", "fill"}
+RefPairMC  == {"il", "view", "refpair"}
+RefPairAll == {"il", "view", "refpairall"}
+SimClasses == AllClasses \cup {"refpairfew", "refpairbin"}
+UnaryFew   == {"refpairfew", "algofew", "ctor", "size", "view", "push", "bit", "shift", "at", "read", "writefew", "cap", "fill"}
 BinaryNav  == {"il0", "other0", "view", "binary", "pair", "move"}
 (* an owning target with the second object an owning bitset or a VIEW (operands of &=, |=, ^=, &, |, ^, copy) *)
-BinaryNavA == BinaryNav \cup {"algopair"}
-BinaryOV   == {"algopair", "il0", "other0", "otherview", "binary", "copy"}
-PairOps    == {"Algo", "AndEq", "OrEq", "XorEq", "And", "Or", "Xor", "CtorCopy", "CopyAssign", "Swap", "CtorMove", "MoveAssign"}
+BinaryNavA == BinaryNav \cup {"algopair", "refpairbin"}
+BinaryOV   == {"refpairbin", "algopair", "il0", "other0", "otherview", "binary", "copy"}
+PairOps    == {"RefPair", "Algo", "AndEq", "OrEq", "XorEq", "And", "Or", "Xor", "CtorCopy", "CopyAssign", "Swap", "CtorMove", "MoveAssign"}
 RepSeqsC   == RepSeqs
 NoEmit     == {}
 BinaryOps  == {"AndEq", "OrEq", "XorEq", "And", "Or", "Xor"}
-AllOps     == {"Algo", "CtorAlloc", "CtorMove", "MoveAssign", "Reserve", "MaxSize", "Fill", "CtorDefault", "CtorN", "CtorNV", "CtorIL", "CtorBlocks", "CtorCopy", "CtorView", "AssignNV", "AssignIL",
+AllOps     == {"RefPair", "Algo", "CtorAlloc", "CtorMove", "MoveAssign", "Reserve", "MaxSize", "Fill", "CtorDefault", "CtorN", "CtorNV", "CtorIL", "CtorBlocks", "CtorCopy", "CtorView", "AssignNV", "AssignIL",
                "AssignBlocks", "CopyAssign", "Resize", "Resize1", "ResizeView", "Clear", "PushBack", "PopBack", "SetAll",
                "ResetAll", "FlipAll", "Set", "Set1", "ResetBit", "Flip", "ShlEq", "ShrEq", "AndEq", "OrEq", "XorEq", "Not",
                "And", "Or", "Xor", "Shl", "Shr", "Swap", "At", "Read", "RefWrite"}
